@@ -13,7 +13,8 @@ CHECKS = {
               "typed stream, challenge binding and completeness; a seeded selection of those shapes plus "
               "random members of the circuit family is instantiated as real circuits, proven and verified "
               "with the real create_proof/prepare/verify under recording transcripts (both transcript "
-              "hashes, several k, 1..4 proofs, committed/plain instance splits), and every recorded run is "
+              "hashes, several k, 1..4 proofs, committed/plain instance splits, fixed-table lookups, one- and two-pair "
+              "lookup_any arguments with the highest-degree input and table expressions in different pairs), and every recorded run is "
               "validated by TLC against the specification (property layer: the verifier reads and absorbs "
               "exactly what the prover wrote and accepts; refinement layer: both follow the modelled "
               "schedule for the shape the code reports)."),
@@ -49,7 +50,8 @@ CHECKS = {
               "reasons (every element absorbed before a later challenge, lengths and key absorbed) are invariants. "
               "Against the code: honest proofs of TLC-chosen shapes are produced by the real prover and the complete "
               "tamper plan the specification derives from the RECORDED proof layout (every element x other valid "
-              "value / invalid or non-canonical encoding / sign flip, truncation at and inside every element, "
+              "value / invalid or non-canonical encoding / sign flip / the same point plus a point of cofactor order, "
+              "truncation at and inside every element, "
               "appended bytes, all public-input edits, committed instances, wrong key / k / hash, thorough: every "
               "single-bit flip) is run against the real verifier; the trace spec demands the model's verdict for "
               "each and the completeness of the plan. The standard library's own entry points (verify, batch_verify on batches "
@@ -187,7 +189,10 @@ CHECKS = {
               "shuffled order with 3..25 fixed and permutation commitments, exposed by VerifierGadget::constrain_as_public_input "
               "and compared with AssignedAccumulator::as_public_input and the specification. Committed instances: relations with np plain and nc "
               "committed public inputs - the key must record np, and the real verifier must accept exactly the plain vector with the "
-              "commitment to the committed values (shorter, longer, padded vectors, another or no commitment rejected)."),
+              "commitment to the committed values (shorter, longer, padded vectors, another or no commitment rejected). Encoder domain: "
+              "big integers that do not fit the limbs of the declared width (MC_PublicInputs!DomOK: exactly those do not survive the limb "
+              "decomposition and their truncation is the encoding of another value) must be refused by AssignedBigUint::as_public_input "
+              "or at least not answered with a well-formed encoding (PubIn_Trace!EncDomOK)."),
         design_ref="DESIGN.md 4/C08",
         note=("Not covered: verifying-key identities of the verifier gadget (exercised inside C20's verifier circuit only), the committed-scalar "
               "accumulator path, IR value types (zkir publish: under C18). Edits are sampled positions on long vectors; satisfiability judged by MockProver."),
@@ -204,7 +209,8 @@ CHECKS = {
               "a function of the circuit alone, and keys generated without a witness to verify honest proofs (real "
               "setup_vk/prove/verify for selected relations). Circuits: all native-gadget operations over the toy field "
               "and standard-library relations (native, Jubjub, emulated secp256k1 field and curve incl. "
-              "mul_by_constant, big integers, SHA-256, Poseidon, mixed)."),
+              "mul_by_constant, big integers, SHA-256, Poseidon, mixed; bytes obtained by assignment, decomposition and "
+              "selection read as native values and compared under bounds of 8 and 16 bits)."),
         design_ref="DESIGN.md 4/C09",
         note=("Structural sets compared via counts and a 128-bit digest; listed boundary witnesses only; which "
               "individual advice cells are written is reported but only column heights are required to agree; the "
@@ -264,7 +270,8 @@ CHECKS = {
               "8104, 8200; thorough: 0..70, more sizes up to 22027) x scalar classes {0, 1, r-1, 2, random, alternating, "
               "duplicated} x base classes {G, identity, small multiples incl. identity, repeated, mutually opposite, "
               "duplicated terms} under rayon pools of 1..16 threads; Msm_Trace requires every entry point's result to be the "
-              "model's point. FFT (best_fft), Lagrange / coefficient / extended-coset conversions, rotation, l_i_range incl. "
+              "model's point. FFT (best_fft), Lagrange / coefficient / extended-coset conversions, rotation of points and of "
+              "polynomials in Lagrange form (Polynomial::rotate, rotations -3..3 on every domain size), l_i_range incl. "
               "negative and beyond-n rotations, division by the vanishing polynomial, kate_division, eval_polynomial, "
               "compute_inner_product and lagrange_interpolate run over the toy field F_12289 (the real generic code) for k = "
               "1..6 (thorough 1..8) and quotient-degree parameters 2..8 and are re-evaluated by TLC from their definitions "
@@ -308,7 +315,8 @@ CHECKS = {
               "repeated pair on either side): completeness, soundness and duplicate refusal. Every scenario TLC "
               "enumerates (quick: all honest lists + 6000 sampled corruptions; thorough: all) is executed through the "
               "real commit/multi_open/multi_prepare with random, zero, constant, identical-behind-distinct-references "
-              "and chopped (2..4 pieces) commitments, k=2..7, plus sampled lists up to 12 polynomials x 5 points; "
+              "and chopped (2..4 pieces) commitments, k=2..7, plus sampled lists up to 12 polynomials x 5 points and polynomials "
+              "opened at as many and more points than they have coefficients (k = 2, 3 with 4 and 5 points); "
               "Kzg_Trace recomputes the verdict and the number of point sets from every logged scenario and consumes "
               "the line only if the code's outcome (ok / reject / DuplicatedQuery, never panic) and the number of "
               "evaluations in the proof equal them."),
@@ -362,7 +370,7 @@ CHECKS = {
               "function. The harness records those events from the real code (ParamsKZG set-up and downsize to every "
               "k' against a fresh set-up from the same secret; keygen_vk/keygen_pk under thread pools {1,2,3,8,16}, "
               "repeated; write/read of parameters, VerifyingKey, ProvingKey, MidnightVK, MidnightPK in all nine "
-              "format pairs; proofs by original and reloaded proving keys verified under original and reloaded "
+              "format pairs, for circuits with and without column annotations; proofs by original and reloaded proving keys verified under original and reloaded "
               "verifying keys) and Lifecycle_Trace rejects a second hash for an identity, a lossy or refused "
               "compatible round trip, an incompatible read that silently yields another object and any failed cross "
               "verification."),
@@ -401,7 +409,8 @@ CHECKS = {
               "decides equality of the two marked languages for ALL words, one TLC run per expression. Expressions come "
               "from the check's seed over all combinators (byte classes, complemented classes, words, concatenation, "
               "union, intersection, complement, difference, star/plus, optional, exact and bounded repetition, separated "
-              "lists, delimiters, markers) plus systematic compositions of iteration operators around multi-letter "
+              "lists, delimiters, markers; intersections and differences of a marked with an unmarked operand in both orders - marker 0 "
+              "unifies with any marker, complements are unmarked) plus systematic compositions of iteration operators around multi-letter "
               "loops; they are built in the real library in sugared form and given to TLC desugared. "
               "In-circuit parser: for compiled automata the AutomatonChip parses accepted, rejected and boundary words under MockProver with "
               "input and marker outputs exposed; RegexWords.tla recomputes the marker sequence from the derivative semantics and demands "
@@ -421,7 +430,8 @@ CHECKS = {
               "as coordinate vectors over independent bases; TLC explores every scalar vector and challenge sequence (P = 5, N = 2; "
               "P = 3, N = 4; thorough also P = 7) and checks completeness, the folding invariant <s',b'> = <s,b> + u^2 L + u^-2 R, and "
               "that a changed final scalar, claimed value or round message is rejected. Against the code: valid inner proofs of a "
-              "standard-library relation over four chip architectures (8/9/10/12 permutation columns, 1..3 lookups) are aggregated "
+              "standard-library relation over several chip architectures (8/9/10/12 permutation columns, 1..3 lookups; with the Poseidon chip, "
+              "hence one additive-selector argument, and without it) are aggregated "
               "through the public API with NB_PROOFS 1, 2 and 3 under a recording transcript; Agg_Trace requires aggregation and "
               "verification to succeed and consume the whole proof, the verifier to read exactly what the prover wrote with "
               "challenges drawn at the same places, the outer layout (n, points, scalars | m, points, committed, evaluated | inner "
